@@ -7,7 +7,7 @@
 #
 import re
 
-from ural.patterns import URL_IN_TEXT_RE
+from ural.patterns import URL_IN_TEXT_RE, URL_WITH_PROTOCOL_RE
 
 IRRELEVANT_PUNCTUATION = set("!?#\"$%&'()*+,-.:;<=>@[\\]^_`{|}~…’‘`‛«»„‟“”-‐‒–—―−‑⁃,،、")
 
@@ -30,10 +30,13 @@ def urls_from_text(string):
         if s > 0 and string[s - 1] == "[":
             if "](" in url:
                 remainder, url = url.split("](", 1)
-                yield remainder.strip()
+                remainder = remainder.strip()
+
+                # NOTE: a half of a markdown link is not necessarily a url
+                if URL_WITH_PROTOCOL_RE.match(remainder):
+                    yield remainder
 
         last_punct = None
-
         stop = len(url) - 1
         i = stop
 
@@ -41,7 +44,9 @@ def urls_from_text(string):
             last_punct = url[i]
             i -= 1
 
-        if i != stop:
+        # NOTE: trimming must not break the url (e.g. by eating its tld)
+        if i != stop and URL_WITH_PROTOCOL_RE.match(url[: i + 1]):
             url = url[: i + 1]
 
-        yield url
+        if URL_WITH_PROTOCOL_RE.match(url):
+            yield url
